@@ -37,8 +37,10 @@ Ops == << [polys |-> <<R(2, 2, 8, 6)>>, merged |-> Solo(R(2, 2, 8, 6))],
           [polys |-> <<R(1, 1, 5, 5), << <<11, 1>>, <<7, 1>>, <<7, 5>>, <<11, 5>> >> >>,
            merged |-> Each(<<R(1, 1, 5, 5), R(7, 1, 11, 5)>>)],
           [polys |-> << << <<5, 1>>, <<1, 1>>, <<1, 5>>, <<5, 5>> >>, R(7, 3, 11, 9)>>,
-           merged |-> Each(<<R(1, 1, 5, 5), R(7, 3, 11, 9)>>)] >>
-Dists == IF Depth = "thorough" THEN {1, 2, 3, 5, -1, -2, -3} ELSE {1, 3, -1, -2}
+           merged |-> Each(<<R(1, 1, 5, 5), R(7, 3, 11, 9)>>)],
+          \* a sliver next to a pad: a negative distance beyond half the sliver's size must make it vanish
+          [polys |-> <<R(1, 1, 5, 2), R(1, 4, 11, 11)>>, merged |-> Each(<<R(1, 1, 5, 2), R(1, 4, 11, 11)>>)] >>
+Dists == IF Depth = "thorough" THEN {1, 2, 3, 5, -1, -2, -3} ELSE {1, 3, -1, -2, -3}
 Joins == {"round", "miter", "bevel"}
 Scalings == IF Depth = "thorough" THEN {1, 4, 100} ELSE {1, 4}
 Init == \E i \in DOMAIN Ops, d \in Dists, j \in Joins, u \in BOOLEAN, s \in Scalings :
